@@ -114,6 +114,20 @@ reg("C38", Spec(
     shards=(1, 1), floor=(1000, 4)))
 
 
+reg("C14", Spec(
+    "enumcheck", "exploration",
+    "Literally exhaustive: every nanosecond value 0..10^9 (with seconds 0,1,2; a 1024-stride for six further boundary seconds) and "
+    "every one of the 2^32 second values (with nanoseconds 0,1,5*10^8,10^9-1) is converted DDS Duration -> RTPS duration -> DDS and "
+    "DDS Time -> transport Time -> RTPS wire Time -> back, and compared for identity. Arithmetic: the full product of a 50-value "
+    "boundary lattice (seconds MIN..MAX, nanoseconds 0..10^9-1) for a+b, a-b (compared with exact i128 arithmetic saturated to "
+    "the representable range), normalisation, and monotonicity over all triples; Time+Duration and Time-Time normalisation.",
+    "Trusted: the i128 reference arithmetic in the harness.",
+    "exhaustive input enumeration of pure conversion/arithmetic functions",
+    "DESIGN.md §4 C14",
+    "all 10^9 nanosecond values x {0,1,2} s + all 2^32 seconds x 4 nanosecond values + 50^3 arithmetic triples; distinct counts outcome classes only (the space is homogeneous)",
+    ["conversion through the public From impls; wire byte order handled by C08"],
+    floor=(10**9, 2), timeout=(300, 3600)))
+
 # ---------------------------------------------------------------------------------------------------------
 # E1 simcheck
 # ---------------------------------------------------------------------------------------------------------
